@@ -145,18 +145,53 @@ def fan_out(prop, seed, tier, cfg, per_run, workers):
     hash_seeds = list(cfg.get("hash_seeds", [0]))
     tmp = tempfile.mkdtemp(prefix=f"icalsim-{prop}-")
     jobs = []
-    for hs in hash_seeds:
-        for start in range(0, runs, chunk):
+    for start in range(0, runs, chunk):          # all incarnations of one chunk are scheduled together
+        for hs in hash_seeds:
             n = min(chunk, runs - start)
             out = os.path.join(tmp, f"{hs}-{start}.json")
             jobs.append((prop, seed, hs, start, n, tier, out, per_run, cfg.get("timeout", 900)))
     reports = []
+    max_wall = float(os.environ.get("VERIF_MAX_WALL", cfg.get("max_wall", 0)) or 0)
+    t0 = time.time()
+    truncated = False
     try:
         with cf.ThreadPoolExecutor(max_workers=workers) as ex:
-            for rep in ex.map(_run_job, jobs):
+            futs = [ex.submit(_run_job, j) for j in jobs]
+            done = 0
+            nviol = 0
+            for f in cf.as_completed(futs):
+                if f.cancelled():
+                    continue
+                rep = f.result()
                 reports.append(rep)
+                done += 1
+                nviol += len(rep.get("violations", [])) if not rep.get("failed") else 0
+                if done % max(1, len(jobs) // 10) == 0:
+                    print(f"[icalsim] progress: {done}/{len(jobs)} worker jobs done, {nviol} violation report(s) so far, "
+                          f"{time.time() - t0:.0f}s", flush=True)
+                if max_wall and not truncated and time.time() - t0 > max_wall:
+                    truncated = True
+                    for g in futs:
+                        g.cancel()
     finally:
         shutil.rmtree(tmp, ignore_errors=True)
+    if truncated:
+        # keep only chunks that completed under every hash seed, and only the leading contiguous ones
+        ok = {}
+        for r in reports:
+            if not r.get("failed"):
+                ok.setdefault(r["start"], set()).add(int(r["hash_seed"]))
+        complete = 0
+        for start in range(0, runs, chunk):
+            if ok.get(start) == set(hash_seeds):
+                complete = start + min(chunk, runs - start)
+            else:
+                break
+        failed = [r for r in reports if r.get("failed")]
+        reports = [r for r in reports if not r.get("failed") and r["start"] < complete] + failed
+        print(f"[icalsim] wall-clock cap of {max_wall:.0f}s reached: {complete} of {runs} runs completed "
+              f"(reported as such in the evidence)", flush=True)
+        runs = complete
     reports.sort(key=lambda r: (int(r["hash_seed"]), r["start"]) if not r.get("failed")
                  else (int(r["job"][2]), r["job"][3]))
     return reports, runs, hash_seeds
